@@ -340,7 +340,7 @@ func C08(c Ctx) *report.Report {
 	}
 	// ---- role-table histories: add / remove take effect for the very next message ----
 	rng := chain.NewRng(c.Seed + 8)
-	for h := 0; h < c.N(6, 200); h++ {
+	for h := 0; h < c.N(10, 200); h++ {
 		w := newC08World()
 		w.prepare()
 		adminHolder := w.holder["ADMIN"]
@@ -372,6 +372,9 @@ func C08(c Ctx) *report.Report {
 			probe := map[string]string{"CLPDEX": "clp.SetSymmetryThreshold", "PMTPREWARDS": "clp.UpdateSwapFeeParams", "MARGIN": "margin.UpdateRowanCollateral",
 				"ETHBRIDGE": "ethbridge.SetPause", "TOKENREGISTRY": "tokenregistry.Register"}
 			pr := roles[rng.Intn(len(roles))]
+			if rng.Intn(2) == 0 {
+				pr = r // half of the probes ask for the role just edited
+			}
 			res := w.Tx(subject, w.build(probe[pr], subject))
 			ok := res.Code == 0
 			rep.Count(fmt.Sprintf("history.probe.%s", okStr(ok)))
